@@ -164,8 +164,17 @@ pub fn glob(pattern: &str, text: &str) -> bool {
     true
 }
 
+/// A finding whose steering rule is in force cannot be produced by a generated case (the generator
+/// avoids its trigger), so its classes suppress nothing then: a violation of such a class is a
+/// different defect and is reported. Only the witness replay accounts for the finding itself.
 pub fn match_open_finding<'a>(fs: &'a [Finding], v: &Violation) -> Option<&'a Finding> {
-    fs.iter().find(|f| f.status == "open" && f.property == v.property && f.covers(&v.class))
+    let steer = active_steering();
+    fs.iter().find(|f| {
+        f.status == "open"
+            && f.property == v.property
+            && f.covers(&v.class)
+            && !f.steer.as_ref().is_some_and(|t| steer.contains(t))
+    })
 }
 
 /// Steering tags currently in force (decided by the parent from the witnesses, see `run_check`).
